@@ -359,10 +359,14 @@ let () =
        count corr prop; verdict id corr prop (Printf.sprintf "model_slice=%s model_reader=%s" m_slice m_reader)
      | [id; "index"; secs; queries; impl_flat; impl_lookups] ->
        (* secs: "line:col@map" joined by '#'; queries "l:c" list; impl_flat: observation of flatten(); impl_lookups: per query "i|f" views *)
-       let sections = List.map (fun s -> match String.index_opt s '@' with
+       let delims = [| '#'; '%'; '&' |] in
+       let rec parse_secs level str = List.map (fun s -> match String.index_opt s '@' with
            | Some k -> let off = String.sub s 0 k and m = String.sub s (k + 1) (String.length s - k - 1) in
-                       (match String.split_on_char ':' off with [l; c] -> (((z_of_string l, z_of_string c), None), Some (DRegular (map_of_string m))) | _ -> failwith "bad off")
-           | None -> failwith "bad section") (String.split_on_char '#' secs) in
+                       let dm = (if m.[0] = 'R' then DRegular (map_of_string (String.sub m 1 (String.length m - 1)))
+                                 else DIndex (None, parse_secs (level + 1) (String.sub m 2 (String.length m - 3)))) in
+                       (match String.split_on_char ':' off with [l; c] -> (((z_of_string l, z_of_string c), None), Some dm) | _ -> failwith "bad off")
+           | None -> failwith "bad section") (String.split_on_char delims.(level) str) in
+       let sections = parse_secs 0 secs in
        let flat = flatten (S (S (S O))) (Some (bytes_of_hex "66")) sections in
        let m_flat = show_map_outcome flat in
        let view m t off = Printf.sprintf "%s/%s/%s/%s" (opt_hex' (tok_source m t)) (string_of_z t.t_sl) (string_of_z (tok_src_col t off)) (opt_hex' (tok_name m t)) in
@@ -379,13 +383,20 @@ let () =
           tokens moved by the offsets (column only on the section's first line) with the same strings and flag; the content of a
           flattened source is the first content seen, in token order, for that name; a source is ignored iff some token's source is *)
        let u32max = z_of_string "4294967295" in
-       let sec_views = List.concat_map (fun (((ol, oc), _), dm) -> match dm with
-           | Some (DRegular m) -> List.map (fun t ->
-               ((string_of_z (Z.add t.t_dl ol), string_of_z (if Z.eqb t.t_dl Z0 then Z.add t.t_dc oc else t.t_dc)),
-                (opt_hex' (tok_source m t), string_of_z t.t_sl, string_of_z t.t_sc, opt_hex' (tok_name m t), t.t_range),
-                (if Z.eqb t.t_src u32max then None else get_source_contents m t.t_src), List.exists (Z.eqb t.t_src) m.sm_ignore,
-                Z.ltb u32max (Z.add t.t_dl ol) || (Z.eqb t.t_dl Z0 && Z.ltb u32max (Z.add t.t_dc oc)))) m.sm_tokens
-           | _ -> []) sections in
+       (* views of a (possibly nested) section list: position, strings, content of the token's source, ignored?, left the u32 grid? *)
+       let rec views_of secs = List.concat_map (fun (((ol, oc), _), dm) ->
+           let inner = (match dm with
+             | Some (DRegular m) -> List.map (fun t ->
+                 ((t.t_dl, t.t_dc), (opt_hex' (tok_source m t), string_of_z t.t_sl, string_of_z t.t_sc, opt_hex' (tok_name m t), t.t_range),
+                  (if Z.eqb t.t_src u32max then None else get_source_contents m t.t_src), List.exists (Z.eqb t.t_src) m.sm_ignore, false)) m.sm_tokens
+             | Some (DIndex (_, inner_secs)) ->
+               (* a nested index is flattened first: its tokens come out ordered by position *)
+               List.stable_sort (fun ((a, b), _, _, _, _) ((c, d), _, _, _, _) -> let k = compare (int_of_z a) (int_of_z c) in if k <> 0 then k else compare (int_of_z b) (int_of_z d)) (views_of inner_secs)
+             | _ -> []) in
+           List.map (fun ((dl, dc), v, c, ig, ov) ->
+             let nl = Z.add dl ol and nc = (if Z.eqb dl Z0 then Z.add dc oc else dc) in
+             ((nl, nc), v, c, ig, ov || Z.ltb u32max nl || Z.ltb u32max nc)) inner) secs in
+       let sec_views = List.map (fun ((l, c), v, ct, ig, ov) -> ((string_of_z l, string_of_z c), v, ct, ig, ov)) (views_of sections) in
        let overflow = List.exists (fun (_, _, _, _, o) -> o) sec_views in
        let flat_ok = (if impl_flat = "panic" then false
          else if overflow then (String.length impl_flat >= 3 && String.sub impl_flat 0 3 = "err")      (* a token would leave the u32 grid: must be refused *)
@@ -444,7 +455,18 @@ let () =
             | _ :: got :: _, Some raws -> String.concat "," (List.map (fun o -> "=" ^ hex_of_bytes (spec_join (opt_of root) (match o with Some b -> b | None -> []))) raws) = got
             | _ :: got :: _, None -> got = ""
             | _ -> false) else true) in
-       let prop = if impl = "panic" || not idem_ok || not ordered || not join_ok then Some false else if rmi_ok then Some (is_ok = spec_ok) else None in
+       (* C02: the decoded tokens are what the independent reading of `mappings` gives (positions, indices; range flags are C07's),
+          ordered by generated position (groups of equal position canonicalised when the document was not in order) *)
+       let tokens_ok = (if is_ok && impl <> "ok other-kind" then
+           (match opt_of mappings with
+            | None -> true
+            | Some b -> (match spec_decode_mappings nsrc nn b, List.rev (String.split_on_char '|' (String.sub impl 3 (String.length impl - 3))) with
+                | Ok l, last :: _ ->
+                  let toks = (match String.index_opt last '#' with Some k -> String.sub last 0 k | None -> last) in
+                  let strip_flag ts = List.map (fun t -> string_of_tok { t with t_range = false }) ts in
+                  (try List.sort compare (strip_flag (toks_of_string toks)) = List.sort compare (strip_flag l) with _ -> false)
+                | _ -> true)) else true) in
+       let prop = if impl = "panic" || not idem_ok || not ordered || not join_ok || not tokens_ok then Some false else if rmi_ok then Some (is_ok = spec_ok) else None in
        let _ = fault in
        (* sort_unstable_by_key may permute tokens that share a generated position when the segments were not already in order:
           the relative order inside such a group is canonicalised on both sides (sorted input is compared exactly) *)
@@ -461,7 +483,7 @@ let () =
            | Some b -> (match spec_decode_mappings nsrc nn b with Ok l -> toks_sorted l | _ -> true) | None -> true) in
        let same_obs = if doc_sorted then m = impl else canon_groups m = canon_groups impl in
        let corr = same_obs && (doc_sorted = false || !m_idem = (if String.length impl_idem > 1 then String.sub impl_idem 0 1 else impl_idem)) in
-       count corr prop; verdict id corr prop (Printf.sprintf "model=%s%s" (if corr then "same" else m ^ " idem=" ^ !m_idem) ((if not idem_ok then "\tnot-idempotent" else "") ^ (if not ordered then "\tnot-ordered" else "") ^ (if not join_ok then "\tsource-root-join-differs" else "")))
+       count corr prop; verdict id corr prop (Printf.sprintf "model=%s%s" (if corr then "same" else m ^ " idem=" ^ !m_idem) ((if not idem_ok then "\tnot-idempotent" else "") ^ (if not ordered then "\tnot-ordered" else "") ^ (if not join_ok then "\tsource-root-join-differs" else "") ^ (if not tokens_ok then "\ttokens-differ-from-independent-reading" else "")))
      | [id; "hermes"; mp; fb; offsets; impl] ->
        let m = map_of_string mp in
        let parse_fb s = (match s with
@@ -640,6 +662,9 @@ let () =
                  && impl_root = opt_hex' !root && impl_dbg = want_dbg && got_views = want_views)
          | _ -> Some false) in
        count corr prop; verdict id corr prop (if corr then "same" else "model_rets=" ^ mo_rets ^ " model_map=" ^ obs_of_map m)
+     | [id; "fname_any"; _; _; _; _; impl] ->
+       (* tokens at arbitrary columns (also inside surrogate pairs, where no text is defined): crash oracle only *)
+       let prop = Some (impl <> "panic") in count true prop; verdict id true prop "crash-oracle"
      | [id; "fname"; text; toks; i; name; impl] ->
        (* text: utf-8 hex of the minified source, toks: tokens (names = indices), i: index of the looked-up token, name: utf-8 hex *)
        let utf8_decode bs = (* minimal decoder for the harness alphabet *)
